@@ -23,8 +23,8 @@ Qed.
 Definition ref_st_step (l : list Z) (o : st_op) : list Z * (bool * list Z) :=
   match o with
   | SPush d _ => (l ++ [d], (true, []))
-  | SPop => (firstn (length l - 1) l, (true, filter nonnull (skipn (length l - 1) l)))
-  | SClear => ([], (true, filter nonnull l))
+  | SPop cb => (firstn (length l - 1) l, (true, if cb then filter nonnull (skipn (length l - 1) l) else []))
+  | SClear cb => ([], (true, if cb then filter nonnull l else []))
   | SEns _ _ => (l, (true, []))
   end.
 
@@ -71,7 +71,7 @@ Theorem st_step_refines : forall s o, st_inv s -> st_op_ok o ->
 Proof.
   intros s o I Hok. assert (I2 := I). destruct I2 as (H1 & H2 & H3). cbn [st_as_al acap asize nodes] in *.
   assert (L : zlen (st_contents s) = stop s) by (apply (al_contents_zlen (st_as_al s) I)).
-  destruct o as [d ok | | | c ok]; unfold st_step_ok, st_step; cbn [st_alloc_fails ref_st_step].
+  destruct o as [d ok | cb | cb | c ok]; unfold st_step_ok, st_step; cbn [st_alloc_fails ref_st_step].
   - (* push *)
     unfold st_push.
     destruct (stop s =? scap s) eqn:E; cbn [andb].
@@ -106,12 +106,12 @@ Proof.
     destruct (stop s =? 0) eqn:E; cbn [fst snd].
     + split; auto. rewrite LL. replace (Z.to_nat (stop s) - 1)%nat with O by lia.
       assert (st_contents s = []) by (destruct (st_contents s); [auto | simpl in LL; lia]).
-      rewrite H. reflexivity.
+      rewrite H. destruct cb; reflexivity.
     + split.
       * unfold st_inv, al_inv. cbn [st_as_al acap asize nodes snodes stop scap]. lia.
       * rewrite LL. unfold st_contents. cbn [snodes stop].
         rewrite firstn_firstn. replace (Init.Nat.min (Z.to_nat (stop s) - 1) (Z.to_nat (stop s))) with (Z.to_nat (stop s - 1)) by lia.
-        f_equal. f_equal.
+        f_equal. f_equal. destruct cb; [|reflexivity].
         rewrite skipn_firstn_comm.
         replace (Z.to_nat (stop s) - (Z.to_nat (stop s) - 1))%nat with 1%nat by lia.
         rewrite znth_nat by lia.
@@ -182,9 +182,9 @@ Qed.
 
 Example st_example :
   exists s, st_init 1 true = Some s /\
-    let ops := [SPush 11 true; SPush 12 true; SPush 13 false; SPush 14 true; SPop; SPush 0 true; SPop; SPop] in
+    let ops := [SPush 11 true; SPush 12 true; SPush 13 false; SPush 14 true; SPop true; SPush 0 true; SPop true; SPop false] in
     st_contents (fst (st_run s ops)) = [11] /\
-    snd (st_run s ops) = [(true, []); (true, []); (false, []); (true, []); (true, [14]); (true, []); (true, []); (true, [12])].
+    snd (st_run s ops) = [(true, []); (true, []); (false, []); (true, []); (true, [14]); (true, []); (true, []); (true, [])].
 Proof. eexists. split; [reflexivity|]. vm_compute. repeat split. Qed.
 
 (* ====================================================================== *)
@@ -263,8 +263,8 @@ Definition ref_ll_step (l : list Z) (o : ll_op) : list Z * (bool * list Z) :=
   match o with
   | LIns pos d _ => (ins_at (Z.to_nat (match pos with None => 0 | Some k => k end)) d l, (true, []))
   | LApp pos d _ => (ins_at (Z.to_nat (match pos with None => zlen l | Some k => k + 1 end)) d l, (true, []))
-  | LRem k => (del_at (Z.to_nat k) l, (true, filter nonnull [znth l k]))
-  | LClear => ([], (true, filter nonnull l))
+  | LRem k cb => (del_at (Z.to_nat k) l, (true, if cb then filter nonnull [znth l k] else []))
+  | LClear cb => ([], (true, if cb then filter nonnull l else []))
   end.
 
 Definition ll_alloc_fails (s : llist) (o : ll_op) : bool :=
@@ -299,7 +299,7 @@ Theorem ll_step_refines : forall s o, ll_inv s -> ll_op_ok s o = true ->
   ll_step_ok s o (fst (ll_step s o)) (snd (ll_step s o)).
 Proof.
   intros s o I Hok. assert (I2 := I). destruct I2 as (H1 & H2 & H3 & H4 & H5).
-  unfold ll_step_ok. destruct o as [pos d ok | pos d ok | k | ]; cbn [ll_alloc_fails ref_ll_step ll_step].
+  unfold ll_step_ok. destruct o as [pos d ok | pos d ok | k cb | cb]; cbn [ll_alloc_fails ref_ll_step ll_step].
   - unfold ll_insert. destruct (node_alloc (lpool s) (lsize s) ok) as [p'|] eqn:E; cbn [fst snd].
     + split. { apply ll_insert_at; auto. eapply node_alloc_ok; eauto. }
       unfold ll_data. cbn [litems]. now rewrite map_ins_at.
@@ -318,7 +318,7 @@ Proof.
       * rewrite map_del_at. now apply NoDup_del_at.
       * intros i Hi. rewrite map_del_at in Hi. apply in_del_at in Hi. auto.
       * unfold pool_ok in *. destruct (lpool s); auto. lia.
-    + unfold ll_data. cbn [litems]. rewrite map_del_at. f_equal. f_equal.
+    + unfold ll_data. cbn [litems]. rewrite map_del_at. f_equal. f_equal. destruct cb; [|reflexivity].
       rewrite (zget_map_snd _ _ _ Hx). cbn [snd filter]. unfold nonnull.
       destruct (d =? 0); reflexivity.
   - cbn [ll_clear fst snd]. unfold ll_clear. cbn [fst snd]. split; [|reflexivity].
@@ -361,8 +361,8 @@ Definition qu_data (s : queue) : list Z := map snd (qitems s).
 Definition ref_qu_step (l : list Z) (o : qu_op) : list Z * (bool * list Z) :=
   match o with
   | QEnq d _ => (l ++ [d], (true, []))
-  | QDeq => (tl l, (true, filter nonnull (firstn 1 l)))
-  | QClear => ([], (true, filter nonnull l))
+  | QDeq cb => (tl l, (true, if cb then filter nonnull (firstn 1 l) else []))
+  | QClear cb => ([], (true, if cb then filter nonnull l else []))
   end.
 
 Definition qu_alloc_fails (s : queue) (o : qu_op) : bool :=
@@ -379,7 +379,7 @@ Definition qu_step_ok (s : queue) (o : qu_op) (s' : queue) (r : bool * list Z) :
 Theorem qu_step_refines : forall s o, qu_inv s -> qu_step_ok s o (fst (qu_step s o)) (snd (qu_step s o)).
 Proof.
   intros s o I. assert (I2 := I). destruct I2 as (H1 & H2 & H3 & H4 & H5).
-  unfold qu_step_ok. destruct o as [d ok | | ]; cbn [qu_alloc_fails ref_qu_step qu_step].
+  unfold qu_step_ok. destruct o as [d ok | cb | cb]; cbn [qu_alloc_fails ref_qu_step qu_step].
   - unfold qu_enqueue. destruct (node_alloc (qpool s) (qsize s) ok) as [p'|] eqn:E; cbn [fst snd]; [|auto].
     split.
     + unfold qu_inv. cbn [qitems qnext qpool qsize]. split; [|split; [|split; [|split]]].
@@ -390,7 +390,7 @@ Proof.
       * eapply node_alloc_ok; eauto.
     + unfold qu_data. cbn [qitems]. now rewrite map_app.
   - unfold qu_dequeue. destruct (qitems s) as [|[id d] r] eqn:Q; cbn [fst snd].
-    + split; auto. unfold qu_data. rewrite Q. reflexivity.
+    + split; auto. unfold qu_data. rewrite Q. destruct cb; reflexivity.
     + split.
       * unfold qu_inv. cbn [qitems qnext qpool qsize]. try rewrite Q in H1. try rewrite Q in H2. try rewrite Q in H3. cbn [map fst] in *.
         split; [|split; [|split; [|split]]]; auto.
@@ -399,7 +399,7 @@ Proof.
         -- intros i Hi. apply H3. now right.
         -- unfold pool_ok in *. destruct (qpool s); auto. lia.
       * unfold qu_data. rewrite Q. cbn [qitems map snd tl firstn filter]. unfold nonnull.
-        destruct (d =? 0); reflexivity.
+        destruct cb; [|reflexivity]. destruct (d =? 0); reflexivity.
   - unfold qu_clear. cbn [fst snd]. split; [|reflexivity].
     unfold qu_inv. cbn [qitems qnext qpool qsize]. split; [reflexivity|]. split; [constructor|].
     split; [intros id []|]. split; auto. unfold pool_ok in *. destruct (qpool s); auto. lia.
@@ -499,14 +499,14 @@ Qed.
 
 Example ll_example :
   exists s, ll_init 1 true = Some s /\
-    let ops := [LIns None 11 true; LApp None 12 true; LIns (Some 1) 13 true; LApp (Some 0) 14 false; LRem 0; LApp None 0 true; LRem 3] in
+    let ops := [LIns None 11 true; LApp None 12 true; LIns (Some 1) 13 true; LApp (Some 0) 14 false; LRem 0 true; LApp None 0 true; LRem 3 false] in
     ll_ops_ok s ops /\ ll_data (fst (ll_run s ops)) = [14; 13; 12] /\
     map fst (litems (fst (ll_run s ops))) = [4; 3; 2].
 Proof. eexists. split; [reflexivity|]. vm_compute. repeat split. Qed.
 
 Example qu_example :
   exists s, qu_init 0 true = Some s /\
-    let ops := [QEnq 11 true; QEnq 12 false; QEnq 13 true; QDeq; QEnq 14 true; QDeq] in
+    let ops := [QEnq 11 true; QEnq 12 false; QEnq 13 true; QDeq true; QEnq 14 true; QDeq false] in
     qu_data (fst (qu_run s ops)) = [14] /\
-    snd (qu_run s ops) = [(true, []); (false, []); (true, []); (true, [11]); (true, []); (true, [13])].
+    snd (qu_run s ops) = [(true, []); (false, []); (true, []); (true, [11]); (true, []); (true, [])].
 Proof. eexists. split; [reflexivity|]. vm_compute. repeat split. Qed.
